@@ -75,8 +75,7 @@ def run(ctx, rep):
     keep_expl, keep_ass = rep.explanation, list(rep.assumptions)
     c13.run(ctx, rep)
     rep.explanation, rep.assumptions = keep_expl, keep_ass
-    rep.instances[before:] = [i for i in rep.instances[before:] if i["rule"] in ("R13.0", "R13.1", "R13.2")]
-    rep.floors.pop("R13.3", None)
+    rep.instances[before:] = [i for i in rep.instances[before:] if i["rule"] in ("R13.0", "R13.1", "R13.2", "R13.3")]
     from props import c11
     before = len(rep.instances)
     c11.length_domain(ctx, rep)
